@@ -396,3 +396,29 @@ add('C16.twin_reset_map', 'C16', [(QZ, "    self._result: QuantizationResult = Q
     (QZ, "    model_modifier_instance = model_modifier.ModelModifier(self.float_model)\n    return model_modifier_instance.modify_model(quant_params)", "    return self._model_modifier.modify_model(quant_params)"),
     (MMF, "    buffer_size = 0\n    for buffer in quantized_model.buffers:", "    buffer_size = 0\n    self._constant_map = []\n    for buffer in quantized_model.buffers:")],
     (), 'cached ModelModifier is fine for C16 once the constant map is reset per call', kind='twin')
+
+# ---------------------------------------------------------------------- C01
+TP = 'transformation_performer.py'
+add('C01.f4', 'C01', (TP, "    if instruction.producer is None or instruction.producer < 0:", "    if not instruction.producer or instruction.producer < 0:"), 'C01.R7', 'defect F4 returns: producer 0 treated as absent', control=True)
+add('C01.f5_performer', 'C01', (TP, "      if original_op_id < 0:\n        # -1 stands for the graph output, which is not an op in the map.\n        consumers.append(-1)\n        continue\n", ""),
+    'C01.R6', 'defect F5 returns: -1 looked up in the op-id map', control=True)
+add('C01.f5_rewire', 'C01', (DQI, "    if consumer_id < 0:\n      continue  # -1 stands for the graph output, handled below.\n", ""), 'C01.R6', 'defect F5 returns: operators[-1] rewired')
+add('C01.f5_shift', 'C01', (TP, "        self._first_original_op_at_or_after(\n            transformation_inst.subgraph_id, trans_info.op_id\n        ),", "        min(instruction.consumers),"), 'C01.R6', 'defect F5 returns: map shifted from min(consumers) = -1')
+add('C01.insert_pos', 'C01', (DQI, "  op_id = max(transformation_input.producer + 1, first_consumer_id)", "  op_id = max(transformation_input.producer, first_consumer_id)"), 'C01.R5', 'DEQUANTIZE may be inserted before its producer')
+add('C01.no_map_update', 'C01', (TP, "    self._update_op_id_map(\n        transformation_inst.subgraph_id,\n        self._first_original_op_at_or_after(\n            transformation_inst.subgraph_id, trans_info.op_id\n        ),\n        trans_info.num_ops_added,\n    )\n", ""),
+    'C01.R8', 'op-id map not shifted after an insertion')
+add('C01.id_after_append', 'C01', (TU, "  new_tensor.buffer = 0\n  new_tensor_id = len(subgraph.tensors)\n  subgraph.tensors.append(new_tensor)\n  return new_tensor_id", "  new_tensor.buffer = 0\n  subgraph.tensors.append(new_tensor)\n  new_tensor_id = len(subgraph.tensors)\n  return new_tensor_id"),
+    'C01.R4', 'new activation tensor id computed after the append (off by one)')
+add('C01.no_unique_check', 'C01', (PG, "    self._check_tensor_names_are_unique()\n", ""), 'C01.R1', 'tensor-name uniqueness check removed')
+add('C01.set_per_subgraph', 'C01', (PG, "    global_tensor_names = set()\n    for subgraph in self.flatbuffer_model.subgraphs:\n", "    for subgraph in self.flatbuffer_model.subgraphs:\n      global_tensor_names = set()\n"),
+    'C01.R1', 'uniqueness checked per subgraph only')
+add('C01.wrong_builtin', 'C01', (QI, "      schema_py_generated.BuiltinOperator.QUANTIZE,", "      schema_py_generated.BuiltinOperator.DEQUANTIZE,"), 'C01.R3', 'insert_quant emits a DEQUANTIZE op code (copy-paste)')
+add('C01.info_pos', 'C01', (QI, "  return qtyping.TransformationInfo(\n      op_id=op_id, num_ops_added=1, output_tensor_id=new_tensor_id\n  )", "  return qtyping.TransformationInfo(\n      op_id=first_consumer_id, num_ops_added=1, output_tensor_id=new_tensor_id\n  )"),
+    'C01.R3', 'reported insert position differs from the real one')
+add('C01.no_reset', 'C01', (TP, "    self._original_op_id_map = []\n    self._added_op_id_map = []\n    self._create_op_id_map(tflite_model)", "    self._create_op_id_map(tflite_model)"), 'C01.R8', 'op-id maps accumulate across transform_graph calls')
+add('C01.no_validity', 'C01', (TIG, "    self._check_tensor_transformation_instructions_valid(tensor_trans_insts)\n", ""), 'C01.R2', 'instruction validity check removed')
+add('C01.add_op_code_idx', 'C01', (TU, "  model_op_codes[-1].builtinCode = op_code\n  return len(model_op_codes) - 1", "  model_op_codes[-1].builtinCode = op_code\n  return len(model_op_codes)"), 'C01.R4', 'add_op_code returns an out-of-range index for a new code')
+add('C01.update_instr_conditional', 'C01', (TP, "    self._update_instructions(\n        transformation_index,\n        transformation_inst.instructions,\n        transformation_inst.subgraph_id,\n        trans_info,\n    )",
+    "    if trans_info.op_id > 0:\n      self._update_instructions(\n          transformation_index,\n          transformation_inst.instructions,\n          transformation_inst.subgraph_id,\n          trans_info,\n      )"),
+    'C01.R8', 'later instructions not retargeted when the op was inserted at position 0')
+add('C01.twin_guard_eq', 'C01', (DQI, "    if consumer_id < 0:\n      continue  # -1 stands for the graph output, handled below.", "    if consumer_id == -1:\n      continue"), (), 'sentinel guard written as == -1', kind='twin')
